@@ -909,7 +909,11 @@ pub fn c08_threads(cfg: C08Cfg, bound: u32) -> ThHarness {
             let owned: Arc<Mutex<Vec<u16>>> = Arc::new(Mutex::new(Vec::new()));
             for (t, buf) in handed.into_iter().enumerate() {
                 let addr = buf.0.as_ptr() as usize;
-                let bid = bufs.iter().position(|(a, l)| addr >= *a && addr < *a + *l as usize).expect("handed-out buffer inside the pool") as u16;
+                // (A ReadBuf that is not inside any of the pool's buffers is reported by the judge below.)
+                let bid = bufs.iter().position(|(a, l)| addr >= *a && addr < *a + *l as usize).map_or(u16::MAX, |b| b as u16);
+                if bid == u16::MAX {
+                    simk::with(|k| k.violation("readbuf-outside-pool", format!("a ReadBuf the multishot read handed out points at {addr:#x}, which is inside none of the pool's buffers {bufs:x?}")));
+                }
                 owned.lock().unwrap().push(bid);
                 let owned = owned.clone();
                 bodies.push((
@@ -1637,10 +1641,12 @@ pub struct C12ThCfg {
     pub sqpoll: bool,
     /// Reports under this property (C12, or C11 for the wake variants).
     pub prop: &'static str,
+    /// Kernel-thread rings: the thread is asleep (NEED_WAKEUP set) when the threads start.
+    pub idle_at_start: bool,
 }
 
 pub fn c12_threads(cfg: C12ThCfg, bound: u32) -> ThHarness {
-    let name = format!("threads-ringdrop-vs-{}-sq{}{}-polls{}", cfg.acts.iter().map(|a| format!("{a:?}")).collect::<Vec<_>>().join("+"), cfg.sq, if cfg.sqpoll { "-sqpoll" } else { "" }, cfg.ring_polls);
+    let name = format!("threads-ringdrop-vs-{}-sq{}{}{}-polls{}", cfg.acts.iter().map(|a| format!("{a:?}")).collect::<Vec<_>>().join("+"), cfg.sq, if cfg.sqpoll { "-sqpoll" } else { "" }, if cfg.idle_at_start { "-asleep" } else { "" }, cfg.ring_polls);
     let describe = json!({"engine": "schx", "ring_thread": format!("{} poll(s), then drops the Ring", cfg.ring_polls), "other_threads": cfg.acts.iter().map(|a| format!("{a:?}")).collect::<Vec<_>>(), "sq": cfg.sq, "kernel_thread": cfg.sqpoll, "preemption_bound": bound});
     let cfg = Arc::new(cfg);
     ThHarness {
@@ -1855,6 +1861,24 @@ pub fn c12_threads(cfg: C12ThCfg, bound: u32) -> ThHarness {
                         })
                     }),
                 });
+                // The kernel thread goes to sleep when it finds nothing to do: it then has to be woken.
+                actors.push(Actor {
+                    name: "sq-thread-goes-idle".into(),
+                    enabled: Box::new(|| simk::with(|k| k.ring0_open() && k.rings[0].sq_pending() == 0 && !k.rings[0].sq_thread_idle && k.idle_budget > 0)),
+                    step: Box::new(|| {
+                        simk::with(|k| {
+                            k.idle_budget -= 1;
+                            k.rings[0].sq_thread_idle = true;
+                            k.rings[0].set_sq_flag(SQ_NEED_WAKEUP, true);
+                        })
+                    }),
+                });
+                if cfg.idle_at_start {
+                    simk::with(|k| {
+                        k.rings[0].sq_thread_idle = true;
+                        k.rings[0].set_sq_flag(SQ_NEED_WAKEUP, true);
+                    });
+                }
             }
             let judge = Box::new(move |_exec: &Exec| -> Vec<Violation> {
                 let mut v = sim_violations(prop);
